@@ -68,6 +68,11 @@ Advance(c0, trk, call, o) ==
                                                   k |-> 0, cp |-> FALSE, dead |-> FALSE]) ELSE trk
     [] call.op = "clone" ->
          IF o.k = "unit" /\ HasIt(trk, call.it) THEN SetIt(trk, call.to, ItOf(trk, call.it)) ELSE trk
+    [] call.op = "cast_item" ->  \* next() then cast: the item is consumed even when the cast panics
+         IF ~HasIt(trk, call.it) THEN trk
+         ELSE LET s == ItOf(trk, call.it)  w == InfoWalk(c.mem) IN
+              SetIt(trk, call.it, [s EXCEPT !.k = IF o.k = "some" \/ (o.k = "panic" /\ s.k < Len(w.items)) THEN s.k + 1 ELSE s.k,
+                                            !.dead = s.dead \/ o.k \in {"crash", "hang"} \/ (o.k = "panic" /\ s.k >= Len(w.items))])
     [] call.op = "nth" ->        \* nth(n) consumes n + 1 items (or exhausts / kills the iterator)
          IF ~HasIt(trk, call.it) THEN trk
          ELSE LET s == ItOf(trk, call.it) IN
@@ -302,8 +307,21 @@ C05_Accept(c, trk, call, o) ==
   ELSE LET K == InfoKind(KindOfCall(call))  f == FindSpec(InfoWalk(c.mem), K.id) IN
        (K.dst /\ f.k = "found" /\ call.op # "str") => AcceptInfoRead(c, trk, call, o)
 \* C15: a typed view either panics or sits at the tag's address with the tag's rounded size
+\* any tag viewed as any tag type: a panic, or a view at the tag's address with the tag's rounded size
+AcceptCastItem(c, trk, call, o) ==
+  IF ~HasIt(trk, call.it) THEN o.k = "skipped"
+  ELSE LET s == ItOf(trk, call.it)  w == InfoWalk(c.mem) IN
+       IF s.dead THEN o.k \in {"panic", "none"}
+       ELSE IF s.k < Len(w.items) THEN
+            LET it == w.items[s.k + 1]  K == InfoKind(call.to) IN
+            \/ o.k = "panic"
+            \/ /\ o.k = "some" /\ o.v.at = it.at /\ o.v.sv = RoundUp8(it.size)
+               \* a variable-length target type truthfully computing its element count cannot accept an undersized or ragged tag
+               /\ (call.to # "generic" /\ K.dst => it.size >= K.base /\ (it.size - K.base) % K.elem = 0)
+       ELSE IF w.fin = "none" THEN o.k = "none" ELSE o.k = "panic"
 C15_Accept(c, trk, call, o) ==
-  IF call.op = "custom_get" THEN (IF trk.loaded # "bi" THEN o.k = "skipped" ELSE AcceptCustomGet(c, call, o))
+  IF call.op = "cast_item" THEN AcceptCastItem(c, trk, call, o)
+  ELSE IF call.op = "custom_get" THEN (IF trk.loaded # "bi" THEN o.k = "skipped" ELSE AcceptCustomGet(c, call, o))
   \* the typed view's fields alias the tag's bytes: whatever an accessor hands out lies inside the (rounded) tag
   ELSE IF call.op \in {"field", "str", "area"} /\ trk.loaded = "bi" THEN
        LET K == InfoKind(KindOfCall(call))  f == FindSpec(InfoWalk(c.mem), K.id) IN
@@ -538,7 +556,7 @@ C20_Accept(c, trk, call, o) ==
     [] OTHER -> TRUE
 
 \* ---- C01: never outside the region, never a crash, references inside the owning tag ------------
-InfoOps == {"nth", "count", "last", "custom_get", "load", "tags", "module_tags", "efi_areas", "elf_sections", "elf_sections_deprecated", "next", "clone",
+InfoOps == {"cast_item", "nth", "count", "last", "custom_get", "load", "tags", "module_tags", "efi_areas", "elf_sections", "elf_sections_deprecated", "next", "clone",
             "len", "size_hint", "get", "field", "str", "area", "dbg", "elf_field", "elf_name"}
 \* the extent a call's results must stay in
 OwnerExtent(c, trk, call) ==
@@ -551,7 +569,7 @@ OwnerExtent(c, trk, call) ==
   ELSE IF call.op = "load" THEN <<0, T>>
   ELSE <<8, T>>
 C01_Accept(c, trk, call, o) ==
-  IF call.op \notin InfoOps \/ (call.op \in {"next", "clone", "len", "size_hint", "nth", "count", "last"} /\ HasIt(trk, call.it)
+  IF call.op \notin InfoOps \/ (call.op \in {"next", "clone", "len", "size_hint", "nth", "count", "last", "cast_item"} /\ HasIt(trk, call.it)
                                 /\ ItOf(trk, call.it).kind \in {"htags", "dummy"}) THEN TRUE
   ELSE /\ Controlled(o)
        /\ LET oe == OwnerExtent(c, trk, call) IN \A e \in Exts(o) : Inside(e, oe[1], oe[2])
@@ -724,6 +742,17 @@ DesignStep(c0, ds, call) ==
                      LET r == IF s.kind = "tags" THEN DesignTagNext(c.mem, s.end, s.cur, s.dead)
                               ELSE DesignModNext(c.mem, s.end, s.cur, s.dead) IN
                      [o |-> r.o, ds |-> DsSetIt(ds, call.it, [s EXCEPT !.cur = r.cur, !.dead = r.dead])]
+    [] call.op = "cast_item" ->
+         IF ~DsHasIt(ds, call.it) THEN [o |-> Skipped, ds |-> ds]
+         ELSE LET s == ds.its[call.it]  r == DesignTagNext(c.mem, s.end, s.cur, s.dead)
+                  nds == DsSetIt(ds, call.it, [s EXCEPT !.cur = r.cur, !.dead = r.dead]) IN
+              IF r.o.k # "some" THEN [o |-> r.o, ds |-> nds]
+              ELSE LET sz == LE4(r.o.v.size)
+                       cst == IF call.to = "generic" THEN DesignCastDst(r.o.v.at, 8, 1, 1, sz)
+                              ELSE LET K == InfoKind(call.to) IN
+                                   IF K.dst THEN DesignCastDst(r.o.v.at, K.base, K.elem, IF K.elem = 24 THEN 8 ELSE 1, sz)
+                                   ELSE DesignCastSized(r.o.v.at, RoundUp8(K.wire), sz) IN
+                   [o |-> IF cst.k = "panic" THEN Panic ELSE Some([at |-> cst.v.at, sv |-> cst.v.sv]), ds |-> nds]
     [] call.op \in {"nth", "count", "last"} ->
          IF ~DsHasIt(ds, call.it) THEN [o |-> Skipped, ds |-> ds]
          ELSE LET r == DesignIterMany(c, ds, call.it, IF call.op = "nth" THEN call.n + 1 ELSE -1, 0, None) IN
